@@ -3,7 +3,7 @@ import FeatherModel.Model.Diff
 /-!
 # `.tinydiff` reader (C04) and specification writer
 `quill/src/tiny_v2_diff.rs` (`read`), `quill/src/lines.rs` (`TinyLine::new/next/action/action_string`,
-`WithMoreIdentIter`), `quill/src/tiny_v2.rs` (`unescape`, `escape`), `duke/src/tree/mod.rs` (name predicates used by the
+`WithMoreIdentIter`), `quill/src/tiny_v2.rs` (`unescape`; `escape` for the specification writer), `duke/src/tree/mod.rs` (name predicates used by the
 `TryFrom<JavaString>` conversions of keys and names).
 
 The nested `on_every_line` loops of the reader are modelled as ONE structural pass over the lines with a zipper of the
@@ -101,16 +101,27 @@ def parseAction (valid : JStr → Bool) (fields : List JStr) : Option (Action JS
         | some a, some b => if a = b then .none else .edit a b)
     | _, _ => none
 
-/-- `unescape`: `str::replace("\\n", "\n")` -/
+/-- `unescape` (quill/src/tiny_v2.rs, shared with the tiny v2 reader): scanning left to right, the two-character
+sequences backslash-backslash, backslash-`n`, backslash-`r`, backslash-`t` are decoded; a backslash that starts none of
+them is kept -/
 def unescape : List Nat → List Nat
+  | 92 :: 92 :: rest => 92 :: unescape rest
   | 92 :: 110 :: rest => 10 :: unescape rest
+  | 92 :: 114 :: rest => 13 :: unescape rest
+  | 92 :: 116 :: rest => 9 :: unescape rest
   | c :: rest => c :: unescape rest
   | [] => []
 
-/-- `escape`: `str::replace('\n', "\\n")` -/
+/-- `escape`: backslash, LF, CR and TAB become backslash-backslash, backslash-`n`, backslash-`r`, backslash-`t`
+(four `str::replace`s, the backslash first, so it is a character-by-character map) -/
 def escape : List Nat → List Nat
   | [] => []
-  | c :: rest => if c = 10 then 92 :: 110 :: escape rest else c :: escape rest
+  | c :: rest =>
+    if c = 92 then 92 :: 92 :: escape rest
+    else if c = 10 then 92 :: 110 :: escape rest
+    else if c = 13 then 92 :: 114 :: escape rest
+    else if c = 9 then 92 :: 116 :: escape rest
+    else c :: escape rest
 
 def Action.mapA {α β : Type} (f : α → β) : Action α → Action β
   | .none => .none
